@@ -62,6 +62,22 @@ def safe(fn, hid):
 def replay(st):
     st = decorate(st)
     objs = W.build(st, mk=mk)
+    from .clone import salt_of
+    if salt_of(st) % 3:
+        # the tree interrogated below is the result of a history: it was built in another Document, looked at there
+        # (document, paths, traversals) and then moved, top-level Section by top-level Section, into this one
+        old = objs["d1"]
+        for h, o in objs.items():
+            if st["kind"][h] in ("sec", "prop"):
+                o.document, o.get_path()
+                if st["kind"][h] == "sec":
+                    list(o.itersections()), list(o.iterproperties())
+                    for c in o.sections:
+                        o.get_section_by_path(c.get_path())
+        new = odml.Document()
+        for top in list(old.sections):
+            new.append(top)
+        objs["d1"] = new
     hid = {id(o): h for h, o in objs.items() if o is not None}
     live = [h for h, k in st["kind"].items() if k in ("sec", "prop")]
     secs = [h for h in live if st["kind"][h] == "sec"]
